@@ -5,7 +5,11 @@ BASE=$(mktemp -d /tmp/vfscratch-combo-base-XXXX)
 rsync -a --exclude .git --exclude '*.o' --exclude '*.lo' --exclude '*.la' --exclude .libs --exclude test --exclude python --exclude doc /repo/ $BASE/
 n=0
 for p in /verif/negcontrols/*.diff; do
-  if (cd $BASE && patch -p1 -s -F3 --dry-run < $p) >/dev/null 2>&1; then (cd $BASE && patch -p1 -s -F3 --no-backup-if-mismatch < $p) >/dev/null 2>&1; n=$((n+1)); fi
+  if (cd $BASE && patch -p1 -s -F3 --dry-run < $p) >/dev/null 2>&1; then
+    (cd $BASE && patch -p1 -s -F3 --no-backup-if-mismatch < $p) >/dev/null 2>&1
+    # two refactorings of the same lines can apply (with fuzz) and still not compile together: such a patch is taken out again
+    if python3 /verif/tools/syntax_ok.py $BASE >/dev/null 2>&1; then n=$((n+1)); else (cd $BASE && patch -p1 -s -R -F3 --no-backup-if-mismatch < $p) >/dev/null 2>&1; fi
+  fi
 done
 echo "base tree carries $n refactorings"
 one() {
